@@ -28,6 +28,9 @@ ASSUMPTIONS = [
     '(from_kv1 documents that only the elementid type is special)',
     'strings hold no lone surrogates; no NUL in graphs sent through the binary encoding (NUL-terminated on the wire) - '
     'KeyValues2 graphs do contain NUL',
+    'binary values are compared bitwise: +0.0 and -0.0 are different (angle components excepted - an Angle normalises '
+    'on construction - and text, which is only "to 6 decimals"); attribute keys are the casefolded names, and '
+    'elem[attr.name] must find the attribute (names with lower() != casefold() are generated)',
     'binary: TIME only for version >= 3 (ValueError accepted below); ints in int32; floats float32-representable; '
     'colours 0-255; Time a multiple of 1/10000 s inside int32; angle components in [0, 360)',
     'KeyValues2: an element type is never a value-type keyword, "<valuetype>_array", "element" or "elementid" '
@@ -83,7 +86,7 @@ def strategy_decoder(tier: str):
 
 def _classify(ctx, facts: dict) -> None:
     for key in ('shared', 'cycle', 'self_ref', 'array', 'empty_array', 'stub', 'stub_in_array', 'null',
-                'null_in_array', 'non_ascii', 'has_time'):
+                'null_in_array', 'non_ascii', 'has_time', 'signed_zeros'):
         if facts[key]:
             ctx.label(key)
     if facts['name_removed_with_attrs']:
@@ -216,6 +219,8 @@ def execute_kv2(desc, ctx):
             _cells(ctx, facts, 'kv2f' if flat else 'kv2n')
             if cull and not flat and unshared:
                 ctx.label('cull_uuid_dropped')
+            if not flat and not cull and facts['fold_name_inline']:
+                ctx.label('fold_name_inline')
     after = dmxgen.canon_graph(root)
     ctx.check(dmxgen.canon_diff(want, after) is None, 'no_mutation', 'export_kv2() changed the graph')
 
@@ -499,13 +504,13 @@ _SHAPES = _EDITS + ('shared', 'cycle', 'self_ref', 'empty_array', 'stub', 'stub_
 
 SUBCHECKS = [
     Sub('binary', execute_binary, strategy=strategy_binary, quick=2000, thorough=70000, floor=300, quick_shards=5,
-        must_hit=_SHAPES + ('time_rejected',) + _cells_must(
+        must_hit=_SHAPES + ('time_rejected', 'signed_zeros') + _cells_must(
             ['bin1', 'bin2', 'bin3', 'bin4', 'bin5'], skip={('time', 'bin1'), ('time', 'bin2')})),
     Sub('kv2', execute_kv2, strategy=strategy_kv2, quick=800, thorough=40000, floor=100, quick_shards=4,
-        must_hit=_SHAPES + ('cull_uuid_dropped',) + _cells_must(['kv2n', 'kv2f'])),
+        must_hit=_SHAPES + ('cull_uuid_dropped', 'fold_name_inline') + _cells_must(['kv2n', 'kv2f'])),
     Sub('binary-decoder', execute_decoder, strategy=strategy_decoder, quick=1500, thorough=50000, floor=200,
         quick_shards=4,
-        must_hit=_EDITS + ('v1', 'v2', 'v3', 'v4', 'v5', 'stub', 'stub_in_array', 'null_in_array', 'non_ascii')
+        must_hit=_EDITS + ('signed_zeros', 'v1', 'v2', 'v3', 'v4', 'v5', 'stub', 'stub_in_array', 'null_in_array', 'non_ascii')
         + _cells_must(['bin5'])),
     Sub('kv1-bridge', execute_kv1, strategy=strategy_kv1, quick=1200, thorough=100000, floor=100, quick_shards=2,
         must_hit=('block', 'leaf', 'dup_leaf', 'reserved_leaf', 'mixed', 'empty_block', 'root', 'single')),
